@@ -59,7 +59,20 @@ class StreamReader {
   }
 
   Status<void> Skip(std::size_t padding_bytes) {
-    stream_.seekg(padding_bytes, std::ios_base::cur);
+    // Read and discard instead of seeking: a seek past the end only sets
+    // failbit and does not work at all on non-seekable streams.
+    using CharType = typename IStream::char_type;
+    const std::size_t kChunkSize = 64;
+    CharType discard[kChunkSize];
+    while (padding_bytes > 0) {
+      const std::size_t chunk_bytes =
+          padding_bytes < kChunkSize ? padding_bytes : kChunkSize;
+      stream_.read(discard, chunk_bytes);
+      auto status = ReturnStatus();
+      if (!status)
+        return status;
+      padding_bytes -= chunk_bytes;
+    }
     return ReturnStatus();
   }
 
@@ -69,7 +82,7 @@ class StreamReader {
 
  private:
   Status<void> ReturnStatus() {
-    if (stream_.bad() || stream_.eof())
+    if (stream_.fail() || stream_.eof())
       return ErrorStatus::StreamError;
     else
       return {};
